@@ -1,7 +1,10 @@
 (* C05/Props.v — property theorems for C05 (indexing, slicing, range) and nothing else.
-   [stdlib_*]/[core_*] are regenerated from /repo by rs2v on every run. *)
-From Verif Require Import Base.I64 Gen.CoreStr Gen.StdColl Gen.StdIter
-     C05.Model C05.ProofsSpec C05.ProofsBounds C05.ProofsLoop C05.ProofsMain C05.ProofsRange C05.Syntax.
+   [stdlib_*]/[core_*] are regenerated from /repo by rs2v on every run; [gen_list_slice] and
+   [gen_str_slice] (C05/GenSlice.v) consist of generated code only: the generated normalisation
+   prefix followed by the generated `while` loops (Gen/CoreStrLoop.v, Gen/StdCollLoop.v). *)
+From Verif Require Import Base.I64 Gen.CoreStr Gen.StdColl Gen.StdIter Gen.CoreStrLoop Gen.StdCollLoop
+     C05.Model C05.GenSlice C05.ProofsSpec C05.ProofsBounds C05.ProofsLoop C05.ProofsMain C05.ProofsGenLoop
+     C05.ProofsRange C05.Syntax.
 Open Scope Z_scope.
 
 Example C05_nonvacuous :
@@ -35,6 +38,52 @@ Proof.
   split; [exact (list_slice_zero_step fuel m l s e) | exact (str_slice_zero_step fuel m l s e)].
 Qed.
 Print Assumptions C05_slice_step_cases.
+
+(* P2g the same two statements for the FULLY GENERATED slice functions — normalisation prefix AND
+       both `while` loops translated from the current source by rs2v on this run (fuel = length+1
+       suffices: the generated loops terminate); no hand-written model of the loops is involved
+       in the statement *)
+Example C05_generated_nonvacuous :
+  let l := [104; 101; 108; 108; 111] in
+  zlen l <= MAX64 /\ in_i64 (-2) /\ opt_in_i64 (Some (-1)) /\
+  gen_list_slice 6 Trap l (Some (-1)) None (Some (-2)) = OVal [111; 108; 104] /\
+  gen_str_slice 6 Wrap l (Some 1) (Some (-1)) (Some 2) = OVal [101; 108] /\
+  gen_str_slice 6 Trap l (Some 2) None (Some MAX64) = OVal [108] /\
+  gen_list_slice 2 Wrap l None None None = OFuel /\
+  py_slice l (Some (-1)) None (-2) = [111; 108; 104] /\ py_slice l (Some 1) (Some (-1)) 2 = [101; 108].
+Proof.
+  cbv zeta. repeat split; try (unfold in_i64, MIN64, MAX64; cbn; lia); try (vm_compute; reflexivity);
+  try (vm_compute; intros; discriminate).
+Qed.
+
+Theorem C05_generated_slice_spec : forall (A : Type) m (l : list A) s e k,
+  zlen l <= MAX64 -> in_i64 k -> opt_in_i64 s -> opt_in_i64 e -> k <> 0 ->
+  gen_list_slice (S (length l)) m l s e (Some k) = OVal (py_slice l s e k) /\
+  gen_str_slice (S (length l)) m l s e (Some k) = OVal (py_slice l s e k).
+Proof.
+  intros; split; [exact (gen_list_slice_spec m l s e k H H0 H1 H2 H3) | exact (gen_str_slice_spec m l s e k H H0 H1 H2 H3)].
+Qed.
+Print Assumptions C05_generated_slice_spec.
+
+Theorem C05_generated_slice_step_cases : forall (A : Type) fuel m (l : list A) s e,
+  gen_list_slice fuel m l s e None = gen_list_slice fuel m l s e (Some 1) /\
+  gen_str_slice fuel m l s e None = gen_str_slice fuel m l s e (Some 1) /\
+  gen_list_slice fuel m l s e (Some 0) = OStepZero /\ gen_str_slice fuel m l s e (Some 0) = OStepZero.
+Proof.
+  intros. rewrite !gen_list_slice_eq, !gen_str_slice_eq.
+  split; [exact (list_slice_none_step fuel m l s e)|]. split; [exact (str_slice_none_step fuel m l s e)|].
+  split; [exact (list_slice_zero_step fuel m l s e) | exact (str_slice_zero_step fuel m l s e)].
+Qed.
+Print Assumptions C05_generated_slice_step_cases.
+
+(* P2h the generated loops ARE the loop the other theorems are about: on every input (every fuel,
+       errors, panics and out-of-fuel included) the fully generated functions return what the
+       functions built on the hand-written [slice_loop] return *)
+Theorem C05_generated_loops_agree : forall (A : Type) fuel m (l : list A) s e k,
+  gen_list_slice fuel m l s e k = list_slice fuel m l s e k /\
+  gen_str_slice fuel m l s e k = str_slice fuel m l s e k.
+Proof. intros; split; [exact (gen_list_slice_eq fuel m l s e k) | exact (gen_str_slice_eq fuel m l s e k)]. Qed.
+Print Assumptions C05_generated_loops_agree.
 
 (* P3  regression witness of the repaired finding slice-step-overflow: "hello"[2::MAX] is "l"
        in both builds, as in Python *)
